@@ -23,6 +23,17 @@ def kparams_for(assembly_or_kernel_type):
 
 def assembler_integrands(ctx, kinds=("regular", "singular"), types=None, rule_prefix="ASM"):
     """Every registered regular / singular assembler == its integrand spec (scatter, guard, integrand)."""
+    from . import extents, selectk
+
+    if "IDX-EXTENT" not in getattr(ctx, "_extent_done", set()):
+        ctx._extent_done = {"IDX-EXTENT"}
+        extents.index_extents(ctx)
+        selectk.select_modes(ctx)
+    if "singular" in kinds and not getattr(ctx, "_singoff_done", False):
+        from . import singoff
+
+        ctx._singoff_done = True
+        singoff.offset_roles(ctx)
     reg = K.registries(ctx)
     out = {}
     for kind in kinds:
@@ -48,6 +59,12 @@ def assembler_integrands(ctx, kinds=("regular", "singular"), types=None, rule_pr
 
 
 def potential_kernels(ctx, types=None, rule_id="POT-SUM"):
+    from . import extents, selectk
+
+    if "IDX-EXTENT" not in getattr(ctx, "_extent_done", set()):
+        ctx._extent_done = {"IDX-EXTENT"}
+        extents.index_extents(ctx)
+        selectk.select_modes(ctx)
     reg = K.registries(ctx)
     r = ctx.rule(rule_id, "potential kernels: every value == closed-form kernel sum over the library's quadrature points; "
                  "per-source data computed before and independently of the prange over evaluation points", 1)
